@@ -98,7 +98,7 @@ BUILT = {
 
 # stages added after the table above was written (seeding rounds 3-6); appended to the level note
 ADDED = {
-    "C01": "Also: 2^-60-unit, ulp-neighbour and mixed scalar/bar alphabets, reset() as a deviation in the large-period families, periods 65537/100000 (the latter with a full window), Default instances, every history replayed with the instance serialized+restored / cloned / copied with clone_from (same parameters, larger periods) / a chain of those right before the last operation and before a preceding reset(), and prices of 1e308..1.2e308 judged after exact scaling by 2^-600 - there SMA, WMA, SD and BB overflow an intermediate (KNOWN-FINDING lines K1-K4, exit 0) while MAD/MIN/MAX are exact. Round 12b: deep three-level sequences (depth 10/12) for periods 3..8; MIN/MAX at periods 9 and 17 (thorough up to 33) under every set of <= 3 tie-producing deviations on four base streams (props/devfam.rs), scalar and bar path, exact window scan; stateright cross-check capped. Round 13: alphabet S_near (values 1e-10 relative apart), multipliers 2.618 / 0.1. Round 15: 2^32+2048 calls on one instance (SD, SMA; thorough 6 configurations), every step around the wrap against the reference.",
+    "C01": "Also: 2^-60-unit, ulp-neighbour and mixed scalar/bar alphabets, reset() as a deviation in the large-period families, periods 65537/100000 (the latter with a full window), Default instances, every history replayed with the instance serialized+restored / cloned / copied with clone_from (same parameters, larger periods) / a chain of those right before the last operation and before a preceding reset(), and prices of 1e308..1.2e308 judged after exact scaling by 2^-600 - there SMA, WMA, SD and BB overflow an intermediate (KNOWN-FINDING lines K1-K4, exit 0) while MAD/MIN/MAX are exact. Round 12b: deep three-level sequences (depth 10/12) for periods 3..8; MIN/MAX at periods 9 and 17 (thorough up to 33) under every set of <= 3 tie-producing deviations on four base streams (props/devfam.rs), scalar and bar path, exact window scan; stateright cross-check capped. Round 13: alphabet S_near (values 1e-10 relative apart), multipliers 2.618 / 0.1. Round 15 (thorough tier): 2^32+2048 calls on one instance for 6 configurations, every step around the wrap against the reference.",
     "C02": "Also: 2^-60-unit alphabets, mixed scalar/bar streams, periods up to usize::MAX, unvalidated (inverted) bars, very long runs against an incremental double-double recursion, the identity transformations (serde, clone, clone_from, chain) before the last operation, and prices near f64::MAX (KeltnerChannel's typical price overflows on bars: KNOWN-FINDING K5, exit 0). Round 13: one EMA instance fed 2^32+16 inputs with every step checked against the recursion on its own previous output; multipliers 2.618 / 0.1.",
     "C03": "Also: S_huge (1e307), spike, tiny-unit and mixed alphabets, MFI alphabets with equal typical prices and with reset, huge EMA periods, very long runs (incl. CCI/MFI against the recomputed window), the identity transformations before the last operation. Round 12b: multi-deviation families (k <= 2, thorough k <= 3) at period 9 (thorough 17) for FastStoch/SlowStoch/CCI/MFI/ER/ROC.",
     "C04": "Also: long-prefix family to period 256, lifecycle state graph with reset checked in every reachable state (stateright cross-check), periods 2^32+2 and usize::MAX. Round 15: a negative-price continuation symbol.",
@@ -113,7 +113,7 @@ ADDED = {
     "C13": "Also: regimes stair (equal typical price, different bar composition), short saw-tooth, tri4, zero-mix; bases down to 3e-7; single-regime runs for periods 2 and 3; bar-path runs of the close-/low-/high-reading indicators; MFI zero volumes. Round 13: 2.1 M / 4.2 M-step runs for every subject at periods 3 and 14.",
     "C14": "Also: streams with reset, a 1e6 spike symbol, prices around 1e300 scaled by 2^21 for indicators without running sums, period 6001, Maximum(x) = -Minimum(-x) on streams with reset (Maximum transformed before each reset). Round 13: bars with tied typical prices and different shapes under exactly representable factors.",
     "C15": "Also: bar inputs for BB/MACD/PPO, streams with reset (composite also transformed before each reset), mixed scalar/bar streams, unvalidated bars, 2^-60-unit alphabets, periods up to 257 and the documented defaults with the composite serialized+restored / cloned / clone_from'd mid-stream, Default composites against parts wired from the reported parameters. Round 13: composite vs parts at every step of a 2^22+4096-input walk; multiplier 2.618.",
-    "C17": "Also: reset() as a prefix symbol, spikes 1e9 and 3.7e10, zero-volume and inexact MFI bars, large-period family, a high-price-level alphabet (1e7 with spread 0.01), the identity transformations before the last input and before a prefix-ending reset; SD / Bollinger half-widths are judged at tau(t)*M on the value, the variance reading being kept only for the residue of an evicted outlier (DESIGN.md section 8). Round 13: long-running instance (2^22+4096 inputs) vs fresh instance around every power of two. Round 15: 2^32+2048 calls on one instance (MAX, MIN; thorough 8 configurations) vs a fresh instance fed the last window at every step around the wrap.",
+    "C17": "Also: reset() as a prefix symbol, spikes 1e9 and 3.7e10, zero-volume and inexact MFI bars, large-period family, a high-price-level alphabet (1e7 with spread 0.01), the identity transformations before the last input and before a prefix-ending reset; SD / Bollinger half-widths are judged at tau(t)*M on the value, the variance reading being kept only for the residue of an evicted outlier (DESIGN.md section 8). Round 13: long-running instance (2^22+4096 inputs) vs fresh instance around every power of two. Round 15 (thorough tier): 2^32+2048 calls on one instance for 8 configurations vs a fresh instance fed the last window at every step around the wrap.",
     "C18": "Also: reset in the short alphabet; variants: periodic / single reset, one NaN, HugePair (1e154), zero-mix, mixed input paths, clone_from into a larger instance, replacement by a clone / restored copy eight times per segment, Default instances of all 22 indicators against the bound of the parameters they report. Round 13: NaN-burst variant. Round 15: runs of 3000 -inf / +inf inputs.",
 }
 
